@@ -45,7 +45,9 @@ Fixpoint scan (rs : list rule) (toks : list string) : option (list item) :=
       if negb (starts_dash t) then option_map (cons (IPos t)) (scan rs r)
       else match find_opt rs t with
            | Some ru =>
-               if nargs0 (r_act ru) then option_map (cons (I0 t)) (scan rs r)
+               (* an optional value (-O, -g, -c) is never needed: a following non-option may be
+                  swallowed by argparse, which changes nothing *)
+               if nargs0 (r_act ru) || nargs_opt (r_act ru) then option_map (cons (I0 t)) (scan rs r)
                else match r with
                     | v :: r' => option_map (cons (ISep t v)) (scan rs r')
                     | [] => None
@@ -70,10 +72,15 @@ Fixpoint scan (rs : list rule) (toks : list string) : option (list item) :=
   end.
 
 (* side conditions under which the spelling is unambiguous for argparse *)
+(* takes an attached / = value *)
 Definition is1 (rs : list rule) (f : string) : bool :=
   match find_opt rs f with Some ru => negb (nargs0 (r_act ru)) | None => false end.
+(* requires a separate value *)
+Definition isreq (rs : list rule) (f : string) : bool :=
+  match find_opt rs f with Some ru => negb (nargs0 (r_act ru)) && negb (nargs_opt (r_act ru)) | None => false end.
+(* may stand alone *)
 Definition is0 (rs : list rule) (f : string) : bool :=
-  match find_opt rs f with Some ru => nargs0 (r_act ru) | None => false end.
+  match find_opt rs f with Some ru => nargs0 (r_act ru) || nargs_opt (r_act ru) | None => false end.
 
 Definition wf_item (rs : list rule) (it : item) : bool :=
   match it with
@@ -82,7 +89,7 @@ Definition wf_item (rs : list rule) (it : item) : bool :=
       is1 rs f && starts_dash f && negb (has_char "="%char f) &&
       match find_opt rs (f ++ "=" ++ v)%string with Some _ => false | None => true end &&
       negb (String.eqb (f ++ "=" ++ v)%string "--") && negb (Nat.eqb (String.length (f ++ "=" ++ v)%string) 1)
-  | ISep f v => is1 rs f && starts_dash f && negb (String.eqb f "--") && negb (starts_dash v)
+  | ISep f v => isreq rs f && starts_dash f && negb (String.eqb f "--") && negb (starts_dash v)
   | IAtt f v =>
       let t := (f ++ v)%string in
       is1 rs f && starts_dash f && negb (String.eqb t "--") && negb (Nat.eqb (String.length t) 1) &&
